@@ -394,11 +394,14 @@ def latestConfigBacked : List Step → Nat → Option Nat
   | s :: rest, k =>
     let ok (v : View) : Bool :=
       v.dead || v.vol.latestIdx == 0 ||
+      -- (a configuration at or below the newest snapshot comes from that snapshot; what the log still
+      -- holds down there may be a stale leftover, F3a, and says nothing)
+      (match newestSnap v.dur with
+       | some sn => v.vol.latestIdx ≤ sn.idx
+       | none => false) ||
       (match getLog v.dur.log v.vol.latestIdx with
        | some e => e.kind == 5 && e.cfg == v.vol.latest
-       | none => match newestSnap v.dur with
-         | some sn => v.vol.latestIdx ≤ sn.idx
-         | none => false)
+       | none => false)
     if ok s.pre && !ok s.post then some k else latestConfigBacked rest (k + 1)
 
 /-- C18: the leader a follower names changes only through requests of a term at least its own —
